@@ -351,7 +351,9 @@ def _correct_old_unit_registry(data, sympify=False):
     for k, v in data.items():
         unsan_v = list(v)
         if sympify:
-            unsan_v[1] = cached_sympify(v[1])
+            # going through the string form maps equal-but-not-identical symbols
+            # (e.g. unpickled ones) back onto unyt's dimension singletons
+            unsan_v[1] = cached_sympify(str(v[1]))
         if len(unsan_v) == 4:
             # old unit registry so we need to add SI-prefixability to the registry
             # entry, correct the base_value to be in MKS units, and swap dimensions to
